@@ -441,6 +441,7 @@ func RunC11(c *Ctx, r *Report) {
 		}
 	}
 	c.saBuildRules(r, prefix)
+	c.saLookupUnconditionalRule(r, prefix)
 }
 
 // decodeShapeRule: structure of DecodeTransform*.
@@ -741,6 +742,76 @@ func (c *Ctx) saBuildRules(r *Report, prefix string) {
 				detail = "success return at " + c.InstrPos(ret) + " is reachable with a nil " + fld
 			}
 			r.Check(okAll && n > 0, rule, key, c.InstrPos(st), fmt.Sprintf("%d success return(s) after the assignment, each behind a nil test of the decoded value", n), detail)
+		}
+	}
+}
+
+// saLookupUnconditionalRule: whether a transform of the proposal is looked up in the registry may depend
+// only on how many transforms of that type the proposal lists (and on earlier lookups having succeeded),
+// never on the transform's own content: a lookup skipped for some identifier is that identifier accepted
+// without a descriptor.
+func (c *Ctx) saLookupUnconditionalRule(r *Report, prefix string) {
+	rule := prefix + "sa-build-lookup-unconditional"
+	r.Rule(rule, "in NewIKESAKey / NewChildSAKeyByProposal every registry lookup (DecodeTransform*) is controlled only by nil tests and by the lengths of the proposal's transform lists, not by fields of the transform being looked up", 8)
+	for _, fn := range []*ssa.Function{c.Func("security", "NewIKESAKey"), c.Func("security", "NewChildSAKeyByProposal")} {
+		if fn == nil {
+			r.undecided(rule, "anchor", "-", "constructor does not resolve")
+			continue
+		}
+		f := c.NewFA(fn)
+		for _, b := range fn.Blocks {
+			for _, ins := range b.Instrs {
+				call, ok := ins.(*ssa.Call)
+				if !ok {
+					continue
+				}
+				cal := call.Call.StaticCallee()
+				if cal == nil || !strings.HasPrefix(cal.Name(), "DecodeTransform") || !c.InModule(cal) {
+					continue
+				}
+				key := c.FuncName(fn) + ": " + c.SrcExpr(call)
+				var bad []string
+				n := 0
+				for x := b; x != nil; x = x.Idom() {
+					if len(x.Preds) != 1 {
+						continue
+					}
+					p := x.Preds[0]
+					iff, ok := p.Instrs[len(p.Instrs)-1].(*ssa.If)
+					if !ok || p.Succs[0] == p.Succs[1] {
+						continue
+					}
+					n++
+					cond := iff.Cond
+					for {
+						u, ok := cond.(*ssa.UnOp)
+						if !ok || u.Op != token.NOT {
+							break
+						}
+						cond = u.X
+					}
+					bo, ok := cond.(*ssa.BinOp)
+					if !ok {
+						bad = append(bad, "branch on "+cond.String())
+						continue
+					}
+					if isNilConst(bo.X) || isNilConst(bo.Y) {
+						continue
+					}
+					if _, _, isInt := f.typeRange(bo.X.Type()); !isInt {
+						bad = append(bad, "`"+c.SrcExpr(bo)+"`")
+						continue
+					}
+					for _, side := range []ssa.Value{bo.X, bo.Y} {
+						for a := range f.LFOf(side).T {
+							if f.fieldOfLenAtom(a) == "" {
+								bad = append(bad, "`"+c.SrcExpr(bo)+"`")
+							}
+						}
+					}
+				}
+				r.Check(len(bad) == 0, rule, key, c.InstrPos(call), fmt.Sprintf("%d controlling test(s): nil tests and list lengths only", n), "the lookup is skipped depending on "+strings.Join(bad, ", ")+": a transform for which it is skipped is accepted without a descriptor")
+			}
 		}
 	}
 }
